@@ -254,6 +254,10 @@ fn main() {
     // ---- (a) sequential histories: endpoint 1 with up to three connections (1, 2, 3), peers 8 and 9 with one connection each
     let alphabet: Vec<Op> = vec![Op::Connect(1, 1), Op::Connect(1, 2), Op::Connect(1, 3), Op::Close(1), Op::Close(2), Op::Close(3), Op::Connect(8, 80), Op::Close(80), Op::Connect(9, 90),
                                  Op::Send(1, 8), Op::Send(1, 9), Op::Send(8, 1), Op::Drain(80), Op::DisconnectConn(1, 1), Op::DisconnectConn(1, 3), Op::DisconnectAll(1)];
+    // a second, focused pass: four connections of ONE endpoint connecting and closing in every order, two steps deeper
+    let focused: Vec<Op> = vec![Op::Connect(1, 1), Op::Connect(1, 2), Op::Connect(1, 3), Op::Connect(1, 4), Op::Close(1), Op::Close(2), Op::Close(3), Op::Close(4)];
+    for (alphabet, depth) in [(alphabet, max_len), (focused, if max_len == 0 { 0 } else { max_len + 2 })] {
+    let max_len = depth;
     let n = alphabet.len();
     let mut idx: Vec<usize> = vec![0];
     loop {
@@ -285,6 +289,7 @@ fn main() {
             if idx[k] + 1 < n { idx[k] += 1; for j in k + 1..idx.len() { idx[j] = 0; } break; }
         }
         if idx.len() > max_len { break; }
+    }
     }
     // ---- (b) two threads under the controlled scheduler: every schedule must end in a state some sequential order of the
     //      operations (respecting each thread's own order) leads to, with the same return values
